@@ -640,7 +640,7 @@ impl CCtx {
 fn fc_atom(i: u64) -> E {
     if i == 0 { var(DSP_IN) } else { num(1.0) }
 }
-const FC_RADIX: u64 = 28;
+const FC_RADIX: u64 = 30;
 pub fn fc_count(k: u32) -> u64 {
     seq_count(FC_RADIX, k)
 }
@@ -777,6 +777,15 @@ fn fc_stmt(c: &mut CCtx, o: u64) -> Option<()> {
             c.ops.push(format!("let {f} = idf"));
             c.stmts.push(let_(&f, var("idf")));
             c.vars.push((f, Ty::C1, false));
+        }
+        28 | 29 => {
+            // conditional statements of unit type: an assignment under `if` without else, and with unit arms on both sides
+            let v = c.last_local()?;
+            let cond = bin(">", fc_atom(0), num(0.5));
+            let then = E::Block(vec![S::Assign(v.clone(), bin("+", var(&v), num(1.0)))], None);
+            let els = if o == 28 { E::Block(vec![], None) } else { E::Block(vec![S::Assign(v.clone(), bin("+", var(&v), num(10.0)))], None) };
+            c.ops.push(if o == 28 { format!("if (x > 0.5) {{ {v} = {v} + 1 }}") } else { format!("if (x > 0.5) {{ {v} = {v} + 1 }} else {{ {v} = {v} + 10 }}") });
+            c.stmts.push(S::Expr(E::If(Box::new(cond), Box::new(then), Box::new(els))));
         }
         26 | 27 => {
             // recursion through a top-level function: fixed depth, and a depth that follows the input (clamped to 0..6)
